@@ -4611,6 +4611,14 @@ impl<'a, E: quiver_core::effects::Effect> Compiler<'a, E> {
         };
 
         if identifier.is_none() && accessors.is_empty() {
+            // A bare `^` re-enters the enclosing function. At the top level there is none (and
+            // re-entering the top-level frame of a persistent process would discard the
+            // session's variables), so it is rejected there.
+            if !self.scopes.iter().any(|s| s.kind == ScopeKind::Function) {
+                return Err(Error::FeatureUnsupported(
+                    "Tail call `^` requires an enclosing function".to_string(),
+                ));
+            }
             // Tail call to parameter - argument is already on stack, just emit tail call
             self.codegen.add_instruction(Instruction::TailCall(true));
             Ok(self.program.never())
